@@ -377,6 +377,20 @@ func bases() []hx.Base {
 	}
 }
 
+// c2cBase / c2cAlphabet (the call "pillar-register" is C10's: B = 3 is a new pillar name): a call whose receive block makes the
+// contract call another contract (pillar Register burns the QSR
+// deposit through a send to the token contract), momentums of pillars that have not seen the pool (the pooled receive and
+// its batched send are re-applied to the pool when such a momentum arrives) and complete / incomplete producer events
+func c2cBase() hx.Base {
+	return hx.Base{Name: "pillar-qsr-deposited", Prefix: []ops.Op{{K: "Call", S: "pillar-deposit-qsr", A: 5, V: 190000}, M, M}}
+}
+
+func c2cAlphabet() []ops.Op {
+	return []ops.Op{M, {K: "Mo"}, {K: "Mforeign"}, {K: "Call", S: "pillar-register", A: 5, B: 3}, {K: "Call", S: "stake", A: 1, V: 10}, {K: "Mtwice"}}
+}
+
+func allBases() []hx.Base { return append(bases(), c2cBase()) }
+
 func run(c *xs.Ctx, r *xs.Result) {
 	if c.Replay != nil {
 		var rep struct {
@@ -386,7 +400,7 @@ func run(c *xs.Ctx, r *xs.Result) {
 		if err := json.Unmarshal(c.Replay, &rep); err != nil {
 			panic(err)
 		}
-		for _, b := range bases() {
+		for _, b := range allBases() {
 			if b.Name != rep.Base {
 				continue
 			}
@@ -420,6 +434,11 @@ func run(c *xs.Ctx, r *xs.Result) {
 		Check: func(s *hx.Step) bool { return check(r, s) },
 	}
 	e.Run()
+	if !r.Incomplete {
+		ec := *e
+		ec.Bases, ec.Alphabet, ec.Depth = []hx.Base{c2cBase()}, c2cAlphabet(), depth+1
+		ec.Run()
+	}
 	if c.Thorough() && !r.Incomplete {
 		e2 := *e
 		e2.Alphabet = alphabet(true)
